@@ -33,6 +33,42 @@ FRESH_ENGINE = False
 NEGATIVE_LITERALS = True
 
 
+def str_hash(t):
+    """HashCharArray of the code: h = h * 31 + c in a signed 64-bit integer"""
+    h = 0
+    for ch in t.encode():
+        h = (h * 31 + ch) & 0xFFFFFFFFFFFFFFFF
+    return h - (1 << 64) if h >= (1 << 63) else h
+
+
+def string_keys():
+    """string keys: short ones, and long ones whose 64-bit hash wrapped negative / stayed positive"""
+    cand = ["waypoint_alpha_%d" % i for i in range(1, 12)] + ["spawn_point_number_%d" % i for i in range(1, 12)] + \
+           ["a_rather_long_key_name_%c" % c for c in "abcdefgh"]
+    neg = [c for c in cand if str_hash(c) < 0]
+    pos = [c for c in cand if str_hash(c) >= 0]
+    return ["k", "ab", "key", "nine_char"], neg[:10], pos[:6]
+
+
+INT_KEYS_NEG = [-1, -2, -7, -13, -70000, -2147483649, -4294967297, -123456789012]
+INT_KEYS = [0, 1, 2, 3, 5, 8, 13, 40, 2147483648, 4294967296, 4294967297, 123456789012]
+
+
+def key_pool(rng, n):
+    """n distinct keys, mixed kinds, as (driver token, script text)"""
+    short, neg, pos = string_keys()
+    pool = [(str(k), "( %d)" % k) for k in INT_KEYS_NEG] + [(str(k), str(k)) for k in INT_KEYS] + \
+           [("$" + t.encode().hex(), '"%s"' % t) for t in short + neg + pos] + \
+           [(str(k), str(k)) for k in range(100, 120)]
+    # negative hashes first: they are what the bucket arithmetic can get wrong
+    must = [(str(k), "( %d)" % k) for k in rng.sample(INT_KEYS_NEG, 2)] + [("$" + t.encode().hex(), '"%s"' % t) for t in rng.sample(neg, min(2, len(neg)))]
+    rest = [k for k in pool if k not in must]
+    rng.shuffle(rest)
+    keys = (must + rest)[:max(2, n)]
+    rng.shuffle(keys)
+    return keys
+
+
 class C09(vlib.HistoryProp):
     cid = "C09"
     variant = "asan"
@@ -181,6 +217,73 @@ class C09(vlib.HistoryProp):
         ks = "all" if nx <= 12 else ",".join(str(k) for k in sorted(rng.sample(range(1, nx + 1), 4)))
         return Case(cid, "M K=%s" % ks, ops, origin)
 
+    def m_keys_case(self, rng, cid):
+        """one array with 2..40 entries over mixed keys (negative ints, 0, > 2^31, > 2^32, short and long strings with
+        negative / positive hashes), aliased by a second variable and by a thread argument; after EVERY frame every key
+        is read through an alias, some are rewritten, some removed and re-added, .size is printed through both names"""
+        n = rng.choice([2, 3, 4, 5, 7, 9, 12, 17, 24, 33, 40])
+        keys = [k for k, _ in key_pool(rng, n)]
+        build = ["a4.%s=%d" % (k, i + 1) for i, k in enumerate(keys)] + ["c5=4"]
+        rounds = rng.randint(2, 4)
+
+        def round_ops(x, y, r):
+            ops = ["e%d.%s" % (y, k) for k in keys] + ["z%d" % x]
+            for k in rng.sample(keys, max(1, len(keys) // 4)):
+                ops.append("a%d.%s=%d" % (x, k, 1000 * r + rng.randint(0, 99)))
+            gone = rng.sample(keys, max(1, len(keys) // 5))
+            ops += ["a%d.%s=nil" % (y, k) for k in gone] + ["z%d" % y]
+            ops += ["e%d.%s" % (x, k) for k in rng.sample(keys, min(len(keys), 6))]
+            ops += ["a%d.%s=%d" % (x, k, 5000 + r) for k in gone if rng.random() < 0.6] + ["z%d" % x]
+            return ops
+
+        main = list(build)
+        child = []
+        for r in range(rounds):
+            main += ["w2"] + round_ops(4, 5, r)
+            child += ["w2"] + round_ops(101, 101, r + 10)[: 3 * len(keys)]
+        prog = main[:len(build)] + ["t:4,7(", "w1"] + child + [")"] + main[len(build):]
+        ops = ["P " + " ".join(prog)]
+        for r in range(2 * rounds + 2):
+            ops += ["T 1", "X"]
+        ops += ["T 5", "X"]
+        frames = [i for i, o in enumerate(ops) if o == "X"]
+        for pos in sorted(rng.sample(frames, min(3, len(frames))), reverse=True):
+            ops.insert(pos, "L")
+        nx = sum(1 for o in ops if o == "X")
+        ks = "all" if nx <= 12 else ",".join(str(k) for k in sorted(rng.sample(range(1, nx + 1), 4)))
+        return Case(cid, "M K=%s" % ks, ops, "model-keys-%s" % ("small" if n <= 5 else "medium" if n <= 17 else "large"))
+
+    def f_keys_script(self, rng, lab):
+        """the same for free scripts: the array is also held by a level and a group variable"""
+        n = rng.choice([2, 3, 5, 8, 13, 21, 34, 40])
+        keys = [t for _, t in key_pool(rng, n)]
+        st = ["local.a[%s] = %d" % (k, i + 1) for i, k in enumerate(keys)]
+        st += ["local.b = local.a", "level.ka%d = local.a" % lab, "group.ka = local.a"]
+        for r in range(rng.randint(2, 3)):
+            st.append("wait 0.002")
+            st.append('println "%d:r%d " ' % (lab, r) + ' " " '.join("local.b[%s]" % k for k in keys))
+            st.append('println "%d:s " local.a.size " " level.ka%d.size " " group.ka.size' % (lab, lab))
+            for k in rng.sample(keys, max(1, len(keys) // 4)):
+                st.append("level.ka%d[%s] = %d" % (lab, k, 1000 * (r + 1) + rng.randint(0, 99)))
+            gone = rng.sample(keys, max(1, len(keys) // 5))
+            st += ["local.b[%s] = NIL" % k for k in gone]
+            st.append('println "%d:t " local.a.size " " ' % lab + ' " " '.join("group.ka[%s]" % k for k in rng.sample(keys, min(len(keys), 8))))
+            st += ["local.a[%s] = %d" % (k, 5000 + r) for k in gone if rng.random() < 0.6]
+        st.append('println "%d:end " local.b.size " " ' % lab + ' " " '.join("local.a[%s]" % k for k in keys))
+        return st
+
+    def f_keys_case(self, rng, cid):
+        src = "main:\n" + "\n".join(self.f_keys_script(rng, 1))
+        if rng.random() < 0.5:
+            src += "\nthread l1 local.a\nwait 0.003\nprintln \"m:\" local.a.size\nend\nl1 local.p1:\nwait 0.001\n" + \
+                   "\n".join(s_.replace("local.a", "local.p1").replace("local.b", "local.p1") for s_ in self.f_keys_script(rng, 2)[-6:]) + "\nend\n"
+        else:
+            src += "\nend\n"
+        ops = ["D sa " + src.replace("\n", "\\n"), "S sa"]
+        for f in range(rng.choice([7, 9, 10])):
+            ops += ["T %d" % rng.choice([1, 1, 2]), "X"]
+        return Case(cid, "F K=all", ops, "free-keys")
+
     def m_exhaustive(self, tier):
         """two fixed two-thread programs x a save/reset/load before every operation position"""
         progs = [
@@ -245,6 +348,9 @@ class C09(vlib.HistoryProp):
         if ents:
             pool.append("local.o = $%s" % rng.choice(ents))
             pool.append("level.o%d = $%s" % (lab, rng.choice(ents)))
+            # a stored $name group (two bearers of g1): a snapshot constant array of object references
+            pool.append("local.grp = $g1")
+            pool.append("level.grp%d = $g1" % lab)
         for s in pool:
             if rng.random() < 0.6:
                 st.append(s)
@@ -287,6 +393,10 @@ class C09(vlib.HistoryProp):
         if ents:
             later.append('println "%d:" local.o.targetname' % lab)
             later.append("local.o.tag%d = %d" % (lab, rng.randint(0, 9)))
+            later.append('println "%d:g " local.grp.size " " level.grp%d.size " " local.grp[1].targetname " " level.grp%d[2].targetname' % (lab, lab, lab))
+            later.append("local.grp[%d].gt%d = %d" % (rng.choice([1, 2]), lab, rng.randint(0, 9)))
+            later.append("$g1.gm%d = %d" % (lab, rng.randint(0, 9)))
+            later.append('println "%d:gv " level.grp%d[1].gt%d " " local.grp[2].gm%d' % (lab, lab, lab, lab))
         rng.shuffle(later)
         return st, later[:rng.randint(2, len(later))]
 
@@ -372,9 +482,9 @@ class C09(vlib.HistoryProp):
         ops = []
         names = ["sa", "sb"][:nscripts]
         if ents:
-            spawn = "main:\n" + "\n".join('spawn SimpleEntity "targetname" "%s"' % e for e in ents) + "\nend\n"
+            spawn = "main:\n" + "\n".join('spawn SimpleEntity "targetname" "%s"' % e for e in ents + ["g1", "g1"]) + "\nend\n"
             ops.append("D sp " + spawn.replace("\n", "\\n"))
-            ops.append("E " + " ".join(ents))
+            ops.append("E " + " ".join(ents + ["g1"]))
         for i, nm in enumerate(names):
             other = names[i + 1] if i + 1 < len(names) else None
             src = self.f_script(rng, nm, rng.randint(2, 4), ents, feats, other)
@@ -412,6 +522,12 @@ class C09(vlib.HistoryProp):
             for _ in range(cnt):
                 cases.append(self.m_case(rng, "m%d" % k, nt, nf, nl, "model-%dthreads-%dframes" % (nt, nf)))
                 k += 1
+        for i in range(60 if quick else 700):
+            cases.append(self.m_keys_case(rng, "mk%d" % k))
+            k += 1
+        for i in range(40 if quick else 500):
+            cases.append(self.f_keys_case(rng, "fk%d" % k))
+            k += 1
         base = ["ents"]
         if ENTITY_WAITTILL:
             base.append("entwait")
@@ -509,7 +625,7 @@ def check(res, tier, seed):
                         "at EVERY operation position (and twice), seeded random programs of 2-4 host threads with nested `thread` and 2-5 explicit save/reset/load operations "
                         "(state dump compared with the model's loaded state) and the A-vs-B_k monitor at every frame boundary (<= 12 frames) or 4 sampled ones; free random "
                         "scripts (1-2 scripts x 2-4 labels: waittill/notify/endon on level and entities, timeouts, commanddelay, waitthread with/without value, exec/waitexec, "
-                        "threads with self, locals of every kind, group/level sharing, nested arrays, growth) monitored A vs B_k at every/sampled frame boundary. "
+                        "threads with self, locals of every kind, group/level sharing, nested arrays, growth, mixed-key arrays held by local/level/group, stored $name groups) monitored A vs B_k at every/sampled frame boundary. "
                         "non-trivial = a save/reset/load with >= 2 live threads or a monitored run. ")
     HP.stats = None
     vlib.history_check(res, HP, tier, seed)
